@@ -21,7 +21,8 @@ from vlib.core import Result
 PID = "C01"
 RULE = ("cases: scheduler programs (<= 6 leaves of the five doer kinds + DoDoers nested to depth 3 with arbitrary own "
         "tock and always flag, <= 6 steps each, pool of <= 3 extra doers) with armed faults: raise in enter / at a "
-        "step, KeyboardInterrupt at a step, extend / remove calls on own or ancestor scheduler, limits. "
+        "step, KeyboardInterrupt at a step, extend / remove calls on own or ancestor scheduler made from a recur step or "
+        "from the doer's enter context, limits. "
         "non-trivial = the run does not end by natural completion and >= 2 doers are alive when it stops; distinct = "
         "canonical hash of the program")
 ASSUMPTIONS = ["scripted doers follow the canonical try/except GeneratorExit/except Exception/else/finally skeleton (bareDo) "
@@ -66,6 +67,10 @@ def judge(prog, run, r):
     for name, lst in lcs.items():
         for k, s in enumerate(lst):
             last = k == len(lst) - 1
+            if not last and not s.endswith("X"):
+                r.fail("C01/entered-again-while-running", "%s was entered again while its lifecycle %r was still running "
+                       "(no exit yet); all lifecycles of it: %r" % (name, s, lst))
+                return
             if not LIFE.match(s):
                 if re.match(r"^ER*X$", s) and _kbi_through(run, name):
                     r.fail("C01/keyboardinterrupt-skips-terminator",
@@ -164,10 +169,18 @@ def _group_strategy():
                             group_ops=True, min_leaves=4, max_leaves=8, max_steps=4)
 
 
+def _enter_ctx_strategy(faults=True):
+    """Membership calls made from a doer's enter context: while Doist.enter / DoDoer.enter is still entering its doers
+    (before the first cycle, or inside a DoDoer that is itself extended into a running scheduler at a later cycle)."""
+    return schedgen.program(maxdepth=2, faults=faults, members=True, always_ok=True, dd_tocks=(0.0, 0.0, 0.25), dd_odds=2,
+                            enter_ops=True, min_leaves=2, max_steps=4)
+
+
 def searches(tier):
     q = tier == "quick"
     full, nomem = _strategies()
-    return [("faults", nomem, 500 if q else 8000),
+    return [("enter-context-calls", _enter_ctx_strategy(), 300 if q else 5000),
+            ("faults", nomem, 500 if q else 8000),
             ("faults+membership", full, 500 if q else 8000),
             ("group-membership", _group_strategy(), 300 if q else 5000),
             ("same-cycle-calls", schedgen.same_cycle_program(), 300 if q else 5000)]
